@@ -61,6 +61,15 @@ mod request_call;
 mod session;
 mod tests;
 
+#[cfg(feature = "verif-hooks")]
+pub(crate) mod verif_access {
+    pub(crate) use super::crypto::{
+        decrypt_message, derive_keys_from_pubkey, encrypt_message, generate_session_keys,
+        sign_nonce, verify_authentication_nonce,
+    };
+    pub(crate) use super::session::Session;
+}
+
 pub use crate::node_info::{NodeAddress, NodeContact};
 
 use crate::metrics::METRICS;
@@ -241,6 +250,10 @@ impl Handler {
         key: Arc<RwLock<CombinedKey>>,
         config: Config,
     ) -> Result<HandlerReturn, std::io::Error> {
+        #[cfg(feature = "verif-hooks")]
+        if let Some(scripted) = crate::verif::take_scripted_handler() {
+            return Ok(scripted);
+        }
         let (exit_sender, exit) = oneshot::channel();
         // create the channels to send/receive messages from the application
         let (handler_send, service_recv) = mpsc::unbounded_channel();
@@ -335,6 +348,10 @@ impl Handler {
         let mut banned_nodes_check = tokio::time::interval(Duration::from_secs(BANNED_NODES_CHECK));
 
         loop {
+            #[cfg(feature = "verif-hooks")]
+            if crate::verif::snapshots_armed() {
+                crate::verif::publish_snapshot(self.node_id, self.verif_snapshot());
+            }
             tokio::select! {
                 Some(handler_request) = self.service_recv.recv() => {
                     match handler_request {
@@ -1415,6 +1432,93 @@ impl Handler {
             requests.iter().any(|req| req.initiating_session())
         } else {
             false
+        }
+    }
+}
+
+#[cfg(feature = "verif-hooks")]
+impl Handler {
+    /// A copy of the handler's bookkeeping for the verification harness (read-only).
+    fn verif_snapshot(&self) -> crate::verif::HandlerSnapshot {
+        use crate::verif::{ActiveRequestSnap, ChallengeSnap, HandlerSnapshot};
+        let now = tokio::time::Instant::now();
+        let remaining = |deadline: Option<tokio::time::Instant>| {
+            deadline.map(|d| d.saturating_duration_since(now))
+        };
+
+        let sessions = self
+            .sessions
+            .verif_iter()
+            .map(|(addr, session, last_used)| session.verif_snap(addr.clone(), last_used.elapsed()))
+            .collect();
+
+        let mut active_requests: Vec<ActiveRequestSnap> = self
+            .active_requests
+            .verif_iter()
+            .map(|(addr, call)| {
+                let nonce = *call.packet().message_nonce();
+                ActiveRequestSnap {
+                    addr: addr.clone(),
+                    id: RequestId::from(call.id()).0,
+                    internal: matches!(call.id(), HandlerReqId::Internal(_)),
+                    nonce,
+                    handshake_sent: call.handshake_sent(),
+                    initiating_session: call.initiating_session(),
+                    retries: call.retries(),
+                    remaining_responses: call.verif_remaining_responses(),
+                    body: call.body().clone(),
+                    remaining: remaining(self.active_requests.verif_deadline(&nonce)),
+                }
+            })
+            .collect();
+        active_requests.sort_by(|a, b| (&a.addr, &a.id, a.nonce).cmp(&(&b.addr, &b.id, b.nonce)));
+
+        let mut pending_requests: Vec<(NodeAddress, Vec<(Vec<u8>, bool)>)> = self
+            .pending_requests
+            .iter()
+            .map(|(addr, reqs)| {
+                (
+                    addr.clone(),
+                    reqs.iter()
+                        .map(|r| {
+                            (
+                                RequestId::from(&r.request_id).0,
+                                matches!(r.request_id, HandlerReqId::Internal(_)),
+                            )
+                        })
+                        .collect(),
+                )
+            })
+            .collect();
+        pending_requests.sort_by(|a, b| a.0.cmp(&b.0));
+
+        let mut challenges: Vec<ChallengeSnap> = self
+            .active_challenges
+            .iter()
+            .map(|(addr, challenge)| ChallengeSnap {
+                addr: addr.clone(),
+                challenge_data: challenge.data.as_ref().to_vec(),
+                remote_enr_seq: challenge.remote_enr.as_ref().map(|e| e.seq()),
+                remaining: remaining(self.active_challenges.deadline(addr)),
+            })
+            .collect();
+        challenges.sort_by(|a, b| a.addr.cmp(&b.addr));
+
+        let mut exemptions: Vec<(SocketAddr, usize)> = self
+            .filter_expected_responses
+            .read()
+            .iter()
+            .map(|(a, c)| (*a, *c))
+            .collect();
+        exemptions.sort();
+
+        HandlerSnapshot {
+            published: Instant::now(),
+            sessions,
+            active_requests,
+            pending_requests,
+            challenges,
+            exemptions,
         }
     }
 }
